@@ -351,6 +351,16 @@ def closure_templates(rng):
                   For(["i"], Range(Int(1), Int(c + 1)), Block([Asg("sq", Fn([], Block([Bin("*", Id("i"), Id("i"))]), free=["i"])),
                                                                 If([Cmp(["=="], [Id("i"), Int(1)])], [Block([Asg("first", Fn([], Block([App(Id("sq"), [])]), free=["sq"]))])])])),
                   App(Id("first"), [])]))
+    # a function left from inside a string or a list that is being built: the caller's own string / list is unaffected
+    reset_ids()
+    out.append(P([Asg("f", Fn([], Block([IStr([Str("a"), Return(Int(a)), Str("b")])]))),
+                  Core("print", [IStr([Str("X"), App(Id("f"), []), Str("Y")])]), List([Int(0), App(Id("f"), []), Int(9)])]))
+    reset_ids()
+    out.append(P([Asg("h", Fn([Param("n")], Block([Asg("l", List([Int(1), If([Cmp([">"], [Id("n"), Int(0)])], [Block([Return(Id("n"))])], Block([Int(2)])), Int(3)])), Id("l")]))),
+                  Core("print", [IStr([Str("L"), App(Id("h"), [Int(b)]), Str("R")])]), Tuple([App(Id("h"), [Int(0)]), App(Id("h"), [Int(c)])])]))
+    reset_ids()
+    out.append(P([Asg("g", Fn([], Block([For(["i"], Range(Int(0), Int(3)), Block([Asg("s", IStr([Str("n"), If([Cmp(["=="], [Id("i"), Int(1)])], [Block([Break()])], Block([Id("i")])), Str("m")]))])), Str("done")]))),
+                  Core("print", [IStr([Str("P"), App(Id("g"), []), Str("Q")])]), Str("end")]))
     # nested closures: inner captures from the middle frame, which captured from the outer
     reset_ids()
     inner = Fn([Param("q")], Block([Bin("+", Bin("+", Id("q"), Id("p")), Id("x"))]), free=["p", "x"])
